@@ -205,7 +205,7 @@ func gen(t *rapid.T) Case {
 			s.N = rapid.IntRange(0, 4).Draw(t, "n")
 		case 3:
 			s.T = rapid.SampledFrom([]int{0, 0, 0, 1}).Draw(t, "t")
-			s.N = rapid.IntRange(2, 6).Draw(t, "goroutines")
+			s.N = rapid.IntRange(3, 8).Draw(t, "goroutines")
 		}
 		return s
 	}), 0, 8), 1, 5).Draw(t, "steps")
@@ -433,15 +433,18 @@ func runOnce(c Case) (verdict pbt.Verdict, storeError bool) {
 				g = 8
 			}
 			var wg sync.WaitGroup
+			start := make(chan struct{})
 			for k := 0; k < g; k++ {
 				wg.Add(1)
 				go func() {
 					defer wg.Done()
+					<-start
 					for r := 0; r < 16; r++ {
 						s.GetPeers(torrent(st.T), 3*len(c.Peers)+1)
 					}
 				}()
 			}
+			close(start)
 			wg.Wait()
 			classes["concurrent-lookups"] = true
 			if msg := lookup(i, st.T, 0); msg != "" {
